@@ -53,7 +53,7 @@ RtOK(e) ==
     /\ Verdict(e.u).t = "valid"                                         \* the rendering is a valid ZIP 321 URI
     /\ Denote(e.u) = PaySet(e.req)                                      \* that means exactly this request (amounts digit-wise)
     /\ e.back = "eq"                                                    \* and parses back to an equal request
-    /\ e.tot = Total(e.req)
+    /\ e.tot \in TotalAllowed(e.req)
 
 PnewOK(e) == e.res = (IF PaymentNewOK(e.kd, e.hz, e.z, e.hm) THEN "ok" ELSE "err")
 TnewOK(e) == e.res = (IF e.n > 9999 \/ e.dup THEN "err" ELSE "ok")
@@ -88,7 +88,7 @@ Expected(e, n) ==
                          <<"verdict", v.t, v.why, "payments", IF v.t = "valid" THEN ToJson(PaysJ(Denote(e.u))) ELSE "">>
       [] e.ev = "rt" -> IF ~ReqWellFormed(e) THEN <<"malformed request description (harness)">>
                         ELSE LET v == Verdict(e.u) IN
-                             <<"to_uri must be valid and mean the request, parse back equal, total", ToJson(Total(e.req)),
+                             <<"to_uri must be valid and mean the request, parse back equal, total", ToJson(TotalAllowed(e.req)),
                                "verdict of the rendering", v.t, v.why,
                                "it means", IF v.t = "valid" THEN ToJson(PaysJ(Denote(e.u))) ELSE "">>
       [] e.ev = "pnew" -> <<IF PaymentNewOK(e.kd, e.hz, e.z, e.hm) THEN "ok" ELSE "err">>
@@ -106,9 +106,15 @@ TraceNext == /\ l <= Len(Rec)
              /\ l' = l + 1
 TraceSpec == TraceInit /\ [][TraceNext]_l
 
+\* how the specification reads the strings that were given to from_uri (vacuity guard of the check)
+Stats == LET U == {i \in 1..Len(Rec) : Rec[i].ev = "uri"}
+             V == [i \in U |-> Verdict(Rec[i].u).t]
+             N(t, r) == Cardinality({i \in U : V[i] = t /\ Rec[i].res = r})
+         IN  [valid |-> N("valid", "ok"), invalid |-> N("invalid", "err"),
+              unspec_accepted |-> N("unspec", "ok"), unspec_refused |-> N("unspec", "err")]
 Accepted == LET n == TLCGet("stats").diameter - 1
             IN  IF n = Len(Rec) /\ n >= 1 /\ Rec[n].ev = "end"
-                THEN PrintT(<<"TRACE", "accepted", n>>)
+                THEN PrintT(<<"STATS", ToJson(Stats)>>) /\ PrintT(<<"TRACE", "accepted", n>>)
                 ELSE IF n = Len(Rec)
                 THEN PrintT(<<"TRACE", "rejected", n + 1, "missing end record">>) /\ FALSE
                 ELSE PrintT(<<"TRACE", "rejected", n + 1, "expected", ToJson(Expected(Rec[n + 1], n))>>) /\ FALSE
